@@ -66,6 +66,12 @@ pub fn lists(thorough: bool, seed: usize) -> Vec<Vec<Vec<u8>>> {
     // long patterns (verification beyond the fingerprint), 1..4 byte minimum length
     v.push(vec![vec![b'a'; 30], { let mut p = vec![b'a'; 29]; p.push(b'b'); p }]);
     v.push(vec![b"x".to_vec(), b"abcdefghijklmnopqrstuvwxyz".to_vec()]);
+    // long minimum lengths: rolling-hash window wider than the 64-bit hash (>= 65 bytes)
+    for minl in [33usize, 63, 64, 65, 66, 100] {
+        let base: Vec<u8> = (0..minl + 20).map(|i| b'a' + (i % 26) as u8).collect();
+        v.push(vec![base[..minl].to_vec()]);
+        v.push(vec![base[..minl + 5].to_vec(), base[3..minl + 3].to_vec(), base[..minl + 20].to_vec()]);
+    }
     let n = if thorough { 600 } else { 70 };
     for i in 0..n {
         let alpha: Vec<u8> = match i % 4 {
@@ -111,7 +117,8 @@ pub fn run(args: &Args) -> Report {
         alpha.sort();
         alpha.dedup();
         alpha.push(b'.');
-        let maxlen = if thorough { 140 } else { 100 };
+        let longest = pats.iter().map(|p| p.len()).max().unwrap_or(0);
+        let maxlen = (if thorough { 140 } else { 100 }) + if longest > 30 { 2 * longest } else { 0 };
         let mut hays = vec![];
         for l in 0..=maxlen {
             let mut h = if l % 3 == 0 { vec![b'.'; l] } else { rng.bytes(&alpha, l) };
